@@ -64,6 +64,8 @@ def apply_abstract(sig, m):
     elif k == 'Meta':
         if m['prop'] == 'unique_together':
             sig[m['m']]['ut'] = [list(t) for t in m['val']]
+        elif m['prop'] == 'index_together':
+            sig[m['m']]['it'] = [list(t) for t in m['val']]
     elif k == 'RenM':
         sig[m['nm']] = sig.pop(m['om'])
         sig[m['nm']]['table'] = m['dbtable']
